@@ -23,6 +23,12 @@ _VN = ["scalars", "alpha", "zeta", "beta", "gamma"]
 # ---------------------------------------------------------------- uniform views of xarray / pandas objects
 
 
+def _exact(values):
+    """Integer (and bool) arrays keep their own values (exact comparison, also beyond 2**53); everything else as float64."""
+    arr = np.asarray(values)
+    return arr.astype("int64") if arr.dtype.kind in "iub" else np.asarray(arr, dtype=float)
+
+
 def ds_view(obj):
     """{'coords': {name: (dims, arr)}, 'vars': {name: (dims, arr)}, 'attrs': {...}} for a Dataset (proxy or real)."""
     if isinstance(obj, SymDataset):
@@ -33,8 +39,8 @@ def ds_view(obj):
             "var_attrs": {k: dict(v.attrs) for k, v in obj.data_vars.items()},
         }
     return {
-        "coords": {k: (tuple(v.dims), wrap(np.asarray(v.values, dtype=float))) for k, v in obj.coords.items()},
-        "vars": {k: (tuple(v.dims), wrap(np.asarray(v.values, dtype=float))) for k, v in obj.data_vars.items()},
+        "coords": {k: (tuple(v.dims), wrap(_exact(v.values))) for k, v in obj.coords.items()},
+        "vars": {k: (tuple(v.dims), wrap(_exact(v.values))) for k, v in obj.data_vars.items()},
         "attrs": dict(obj.attrs),
         "var_attrs": {k: dict(v.attrs) for k, v in obj.data_vars.items()},
     }
@@ -44,7 +50,7 @@ def df_view(obj):
     """Ordered [(column name, 1-D arr)] of a DataFrame (proxy or real)."""
     if isinstance(obj, SymDataFrame):
         return list(obj.cols.items())
-    return [(k, wrap(np.asarray(obj[k].values, dtype=float))) for k in obj.columns]
+    return [(k, wrap(_exact(obj[k].values))) for k in obj.columns]
 
 
 def close_enough(x, y):
@@ -430,7 +436,15 @@ class GridToTable(Contract):
             coords = {dims[1]: e1, dims[0]: n1} if rng.random() < 0.5 else {dims[0]: n1, dims[1]: e1}
             for k in range(rng.randint(0, 2)):
                 coords[_XN[k]] = (dims, nrng.uniform(0, 1, (nn, ne)))
-            if rng.random() < 0.6:
+            rr = rng.random()
+            if rr < 0.2:
+                # integer variables / extra coordinates next to float ones, with values a float64 cannot hold exactly
+                big = lambda: nrng.randint(2**53, 2**62, (nn, ne)) * 2 + 1  # noqa: E731
+                coords["ident"] = (dims, big())
+                yield (xr.Dataset({"count": (dims, big()), "v": (dims, nrng.uniform(0, 1, (nn, ne)))}, coords=coords),), {}
+            elif rr < 0.3:
+                yield (xr.DataArray(nrng.randint(2**53, 2**62, (nn, ne)) * 2 + 1, coords=coords, dims=dims, name="count"),), {}
+            elif rr < 0.65:
                 yield (xr.Dataset({"v%d" % k: (dims, nrng.uniform(0, 1, (nn, ne))) for k in range(rng.randint(1, 4))}, coords=coords),), {}
             else:
                 yield (xr.DataArray(nrng.uniform(0, 1, (nn, ne)), coords=coords, dims=dims, name=rng.choice([None, "topo"])),), {}
@@ -449,8 +463,8 @@ class GridToTable(Contract):
             coords = {k: (c.dims, c.values) for k, c in grid.coords.items()}
         else:
             dims = tuple(grid.dims)
-            variables = [(grid.name if grid.name is not None else "scalars", wrap(np.asarray(grid.values, dtype=float)))]
-            coords = {k: (tuple(c.dims), wrap(np.asarray(c.values, dtype=float))) for k, c in grid.coords.items()}
+            variables = [(grid.name if grid.name is not None else "scalars", wrap(_exact(grid.values)))]
+            coords = {k: (tuple(c.dims), wrap(_exact(c.values))) for k, c in grid.coords.items()}
         extras = [(k, coords[k][1]) for k in coords if k not in dims]
         return dims, coords[dims[1]][1], coords[dims[0]][1], extras, variables
 
